@@ -6,6 +6,9 @@ REPO="/repo"; ROOT="/verif"
 def sh(cmd,cwd=None): return subprocess.run(cmd,cwd=cwd,shell=True,capture_output=True,text=True)
 ids=[json.loads(l)["id"] for l in open(ROOT+"/properties.jsonl")]
 only=[a for a in sys.argv[1:] if not a.startswith("--")]
+for a in sys.argv[1:]:
+    if a.startswith("--checks="):
+        ids=[x for x in a[len("--checks="):].split(",") if x]
 assert sh("git status --porcelain",REPO).stdout.strip()=="", "/repo must be clean"
 res=[]
 for d in sorted(glob.glob(ROOT+"/seeded-benign/*/")):
@@ -24,5 +27,17 @@ for d in sorted(glob.glob(ROOT+"/seeded-benign/*/")):
     finally:
         sh("git checkout -- .",REPO)
 out=ROOT+"/seeded-benign/RESULTS.json"; prev=[]
-if os.path.exists(out): prev=[r for r in json.load(open(out)) if all(r["name"]!=x["name"] for x in res)]
+restricted=any(a.startswith("--checks=") for a in sys.argv[1:])
+if os.path.exists(out):
+    old=json.load(open(out))
+    if restricted:
+        # a restricted run only refreshes the listed checks: keep the alarms recorded for the others
+        byname={r["name"]:r for r in old}
+        for x in res:
+            o=byname.get(x["name"])
+            if o:
+                for k,v in o["alarms"].items():
+                    if k not in ids: x["alarms"].setdefault(k,v)
+            x["last_restricted_run"]=ids
+    prev=[r for r in old if all(r["name"]!=x["name"] for x in res)]
 json.dump(prev+res,open(out,"w"),indent=1)
